@@ -1251,7 +1251,68 @@ fn contended_runtime_guard_drops() -> ! {
     std::process::exit(0)
 }
 
+/// An `EntryIoStream` that logs what it is handed as instance 7 and its own drop as the close.
+struct RecIoStream;
+impl metrique_writer::EntryIoStream for RecIoStream {
+    fn next(&mut self, entry: &impl Entry) -> Result<(), metrique_writer::IoStreamError> {
+        let mut w = IdWriter { id: None, tag: None };
+        entry.write(&mut w);
+        log(Ev::Recv { inst: 7, id: w.id.unwrap_or(u64::MAX), tag: w.tag.unwrap_or(u64::MAX) });
+        Ok(())
+    }
+    fn flush(&mut self) -> std::io::Result<()> {
+        Ok(())
+    }
+}
+impl Drop for RecIoStream {
+    fn drop(&mut self) {
+        log(Ev::Closed { inst: 7 });
+    }
+}
+
+/// `attach_to_stream` (the extension that puts a background queue in front of a stream) with
+/// nothing attached, called under each kind of test override: it must attach whatever override
+/// is active; once the override is gone, entries go to the stream and have reached it when the
+/// attach handle has been dropped.
+fn attach_to_stream_under_overrides() -> ! {
+    use metrique_writer::sink::AttachGlobalEntrySinkExt;
+    let rt = tokio::runtime::Builder::new_current_thread().build().expect("runtime");
+    let mut v = Violations::default();
+    for (ci, ctx) in ["no override", "thread-local test sink", "runtime test sink (call made inside the runtime)"].iter().enumerate() {
+        let tl = (ci == 1).then(|| VerifGlobal::set_test_sink(BoxEntrySink::new(RecSink { inst: 1 })));
+        let rg = (ci == 2).then(|| VerifGlobal::set_test_sink_for_tokio_runtime(rt.handle(), BoxEntrySink::new(RecSink { inst: 2 })));
+        let attach = || catch_unwind(AssertUnwindSafe(|| VerifGlobal::attach_to_stream(RecIoStream)));
+        let handle = if ci == 2 { rt.block_on(async { attach() }) } else { attach() };
+        drop(tl);
+        drop(rg);
+        let replay = |extra: J| json!({"history": [format!("install: {ctx}"), "attach_to_stream(recording stream)", "drop the override guard", "try_append", "drop the attach handle"], "detail": extra});
+        match handle {
+            Err(_) => v.add("attach-to-stream-refused-under-test-override", format!("with nothing attached, attach_to_stream panicked under: {ctx}"), replay(json!(null))),
+            Ok(h) => {
+                let id = 200 + ci as u64;
+                let back = VerifGlobal::try_append(VEntry { id, tag: tag_of(id) }).err().map(|e| e.id);
+                drop(h); // flushes and closes the background queue in front of the stream
+                let l = lock(&LOG);
+                let got: Vec<u64> = l.iter().filter_map(|e| if let Ev::Recv { inst, id: i, .. } = e { (*i == id).then_some(*inst) } else { None }).collect();
+                let closed = l.iter().any(|e| matches!(e, Ev::Closed { inst: 7 }));
+                if back.is_some() || got != vec![7] || !closed {
+                    v.add("attach-to-stream:entry-not-delivered-to-the-stream", format!("after attach_to_stream under `{ctx}` and dropping the override, an appended entry was delivered to {got:?} (handed back: {}, stream closed by the handle's drop: {closed})", back.is_some()), replay(json!({"delivered_to": got})));
+                }
+                drop(l);
+                lock(&LOG).retain(|e| !matches!(e, Ev::Closed { inst: 7 }));
+            }
+        }
+    }
+    let viol: Vec<J> = v.by_key.values().map(|v| json!({"key": v.key, "what": v.what, "replay": v.replay, "count": v.count})).collect();
+    println!("{}", json!({"histories": 3, "transitions": 15, "cleanup_ops": 0, "restore_checks": 3, "states": [], "outcomes": vec![0u64; 13], "violations": viol, "aborted": false, "extra": {}}));
+    std::process::exit(0)
+}
+
 fn child_main(a: &[String]) -> ! {
+    if a.first().map(|s| s.as_str()) == Some("attach-to-stream-under-overrides") {
+        std::panic::set_hook(Box::new(|_| {}));
+        attach_to_stream_under_overrides();
+    }
     if a.first().map(|s| s.as_str()) == Some("contended-runtime-guard-drops") {
         std::panic::set_hook(Box::new(|_| {}));
         contended_runtime_guard_drops();
@@ -1554,6 +1615,13 @@ fn parent_main() {
         exhaustive = false;
     }
     spaces_json.push(json!({"space": "fixed history: the test-sink guards of two runtimes dropped concurrently on two threads (first removed sink still being destroyed)", "histories_in_space": 1, "histories_executed": 1}));
+
+    // 2d. attach_to_stream under each kind of test override (three fixed histories)
+    let outs_a = run_jobs(&[vec![s("attach-to-stream-under-overrides")]], 1);
+    if merge(&outs_a, &mut tot, &mut rep) != 3 {
+        exhaustive = false;
+    }
+    spaces_json.push(json!({"space": "fixed histories: attach_to_stream with nothing attached under no / a thread-local / a runtime test sink, then the override dropped, an append, the handle dropped", "histories_in_space": 3, "histories_executed": 3}));
 
     // 3. forget anywhere: one fresh process per history
     let fa_cfg = EnumCfg { depth: forget_anywhere_len, sym: false, max_obs: unlimited, allow_forget: true };
